@@ -239,6 +239,9 @@ impl VerifColumn {
             Blob => ColumnIteratorImpl::Blob(
                 BlobColumnIterator::new(column, start_pos, BlobBlockIteratorFactory()).await?,
             ),
+            Vector(_) => ColumnIteratorImpl::Vector(
+                VectorColumnIterator::new(column, start_pos, VectorBlockIteratorFactory()).await?,
+            ),
             other => panic!("verif hook: unsupported column type {other:?}"),
         };
         Ok(VerifIter(it))
